@@ -423,6 +423,25 @@ theorem C12_close (s : St) (c : Conn) (hu : s.upstream = some c) (ho : c.closed 
     onClientConnectionClose (onClientConnectionClose s) = onClientConnectionClose s := by
   simp [onClientConnectionClose, hu, ho]
 
+/-- **C12 connections are independent.**  What a connection gets (connect address, forwarded
+request, literal / 404 / 400, relay) is what its own request yields on a fresh handler: it does
+not depend on which connections the process served before or serves afterwards.  (The
+correspondence runs sequences of connections in one process against this.) -/
+theorem C12_connections_independent (cfg : Cfg) (ev : Bool) (t : Table) (pre post : List ConnIn) (c : ConnIn) :
+    runConnections cfg ev t (pre ++ c :: post) =
+      runConnections cfg ev t pre ++
+        onRequestCompleteEv cfg ev c.m c.pick c.connectOk t c.req {} :: runConnections cfg ev t post ∧
+    (runConnections cfg ev t (pre ++ c :: post))[pre.length]? =
+      some (onRequestCompleteEv cfg ev c.m c.pick c.connectOk t c.req {}) := by
+  have h1 : ∀ l : List ConnIn, runConnections cfg ev t l =
+      l.map (fun c => onRequestCompleteEv cfg ev c.m c.pick c.connectOk t c.req {}) := by
+    intro l; induction l with
+    | nil => rfl
+    | cons x xs ih => simp [runConnections, ih]
+  constructor
+  · simp [h1]
+  · simp [h1]
+
 /-! ### non-vacuity: the guards are inhabited by ordinary inputs -/
 
 /-- `GET /get HTTP/1.1` with two header fields, as the parser leaves it -/
